@@ -78,10 +78,10 @@ func actValues(k *fw.K, class int, shape []int, softmaxDim int) (*ref.T, string)
 	return t, "tiny"
 }
 
-// actClasses: the value classes an activation is evaluated on (Softmax is specified up to |x| = 700 only; a slope beyond 1
-// would overflow on the "huge" class).
+// actClasses: the value classes an activation is evaluated on (Softmax is specified up to |x| = 700 only). With a slope beyond 1
+// the negative elements of the "huge" class overflow to -Inf in the defining formula itself; the positive ones must still be x.
 func actClasses(sp actSpec) []int {
-	if sp.in.Op == "softmax" || (sp.in.Op == "leakyrelu" && math.Abs(sp.in.F) > 1) {
+	if sp.in.Op == "softmax" {
 		return []int{0, 1, 2, 3}
 	}
 	return []int{0, 1, 2, 3, 4}
@@ -105,7 +105,16 @@ func actSpecs(rank int) []actSpec {
 		{"Tanh", ref.Instr{Op: "tanh"}, func() (fwd, error) { return activations.NewTanh(), nil }},
 		{"LeakyRelu(nil)", ref.Instr{Op: "leakyrelu", F: 0.01}, func() (fwd, error) { return activations.NewLeakyRelu(nil), nil }},
 	}
-	for _, m := range []float64{0, 0.01, 0.5, 1, 2, -0.3} {
+	// zero values of the exported struct types (no constructor ran)
+	specs = append(specs,
+		actSpec{"Relu{}", ref.Instr{Op: "relu"}, func() (fwd, error) { return &activations.Relu{}, nil }},
+		actSpec{"Sigmoid{}", ref.Instr{Op: "sigmoid"}, func() (fwd, error) { return new(activations.Sigmoid), nil }},
+		actSpec{"Tanh{}", ref.Instr{Op: "tanh"}, func() (fwd, error) { return &activations.Tanh{}, nil }},
+		actSpec{"LeakyRelu{}", ref.Instr{Op: "leakyrelu", F: 0}, func() (fwd, error) { return &activations.LeakyRelu{}, nil }})
+	if rank >= 1 {
+		specs = append(specs, actSpec{"Softmax{}", ref.Instr{Op: "softmax", Dim: 0}, func() (fwd, error) { return &activations.Softmax{}, nil }})
+	}
+	for _, m := range []float64{0, 0.01, 0.5, 1, 2, -0.3, 1e-300, 1e5} {
 		m := m
 		specs = append(specs, actSpec{fmt.Sprintf("LeakyRelu(%g)", m), ref.Instr{Op: "leakyrelu", F: m},
 			func() (fwd, error) {
@@ -133,7 +142,7 @@ func actSpecs(rank int) []actSpec {
 
 func runC14(c *fw.Ctx) {
 	deeperBounds(!c.Quick())
-	for i := 0; i < c.Pick(600, 6000); i++ { // one long dimension (127..2049), Softmax along it or along a short one
+	for i := 0; i < c.Pick(600, 30000); i++ { // one long dimension (127..2049), Softmax along it or along a short one
 		c.Case(func(k *fw.K) {
 			shape, long := LongShape(k.Rng, 3, 2049)
 			specs := actSpecs(len(shape))
@@ -172,7 +181,28 @@ func runC14(c *fw.Ctx) {
 						k.Failf("%s: constructor failed: %v", sp.name, err)
 						return
 					}
+					// a second object of the same kind with ANOTHER configuration is built afterwards and used in between
+					var disturber interface {
+						Forward(...tensor.Tensor) (tensor.Tensor, error)
+					}
+					switch sp.in.Op {
+					case "leakyrelu":
+						disturber = activations.NewLeakyRelu(&activations.LeakyReluConfig{M: 7.5})
+					case "softmax":
+						disturber, _ = activations.NewSoftmax(&activations.SoftmaxConfig{Dim: len(shape) - 1 - sp.in.Dim})
+					case "relu":
+						disturber = activations.NewRelu()
+					case "sigmoid":
+						disturber = activations.NewSigmoid()
+					default:
+						disturber = activations.NewTanh()
+					}
 					for round := 0; round < 2; round++ { // the same activation object is used twice
+						if disturber != nil && k.Rng.Intn(2) == 0 {
+							dx := Shuffled(k.Rng, Unique(k.Rng, shape, 0.05, 4))
+							call(func() { _, _ = disturber.Forward(rt.MustLeaf(dx, false)) })
+							k.Count("calls_on_a_second_object_of_the_same_kind_in_between", 1)
+						}
 						if (k.Index+round)%3 == 0 { // ... and in between it saw a batch of the same shape that is not finite (a diverged step)
 							actPoison(k, obj, shape)
 						}
